@@ -16,27 +16,42 @@ open SoupVerif C11 Names
 /-- The element's name as `get_tag` reports it equals the (lower-case) keyword `n`. -/
 def tagIs (c : Ctx) (e : Elem) (n : String) : Bool := c.tagName e == n.toStr
 
+/-- The values of ALL the attributes an attribute selector `[n]` designates, as the value pattern
+    sees them (a list value joined with spaces), in document order.  (In a tree made by a parser
+    there is at most one; an `attrs` dictionary edited by hand can hold `type` and `TYPE`.) -/
+def attrVals (c : Ctx) (e : Elem) (n : String) : List Str :=
+  (matchAttributeValues c e n.toStr []).map nvalJoin
+
 /-- The value of the first attribute an attribute selector `[n]` finds, as the value pattern sees
     it (a list value joined with spaces). -/
 def attrVal (c : Ctx) (e : Elem) (n : String) : Option Str :=
   (matchAttributeName c e n.toStr []).map nvalJoin
 
+theorem attrVal_eq_head? (c : Ctx) (e : Elem) (n : String) :
+    attrVal c e n = (attrVals c e n).head? := by
+  unfold attrVal attrVals
+  rw [matchAttributeName_eq_head?, List.head?_map]
+
 /-- `[n]` -/
 def hasAttr (c : Ctx) (e : Elem) (n : String) : Bool := (attrVal c e n).isSome
 
-/-- `[n=v]` with the engine's character comparison: `ic = true` folds both sides with the
-    regex engine's case folding (`c.env.fold`), `ic = false` is plain equality. -/
+theorem hasAttr_eq_any (c : Ctx) (e : Elem) (n : String) :
+    hasAttr c e n = (attrVals c e n).any fun _ => true := by
+  unfold hasAttr; rw [attrVal_eq_head?]
+  cases attrVals c e n <;> rfl
+
+/-- `[n=v]` with the engine's character comparison — SOME attribute `[n]` designates has the
+    value `v`: `ic = true` folds both sides with the regex engine's case folding (`c.env.fold`),
+    `ic = false` is plain equality. -/
 def attrEq (c : Ctx) (e : Elem) (n : String) (ic : Bool) (v : String) : Bool :=
-  match attrVal c e n with
-  | none => false
-  | some s => litsEq c.env ic v.toStr s
+  (attrVals c e n).any fun s => litsEq c.env ic v.toStr s
 
 /-- `[type=v]`: case-insensitive, except in a document parsed as XML (XHTML) where the
     `xml_type_pattern` makes it exact. -/
 def typeIs (c : Ctx) (e : Elem) (v : String) : Bool := attrEq c e "type" (!c.isXml) v
 
-/-- `[n=""]` -/
-def attrEmpty (c : Ctx) (e : Elem) (n : String) : Bool := attrVal c e n == some []
+/-- `[n=""]`: some attribute `[n]` designates is empty. -/
+def attrEmpty (c : Ctx) (e : Elem) (n : String) : Bool := (attrVals c e n).any fun s => s == []
 
 theorem litsEq_nil (env : CharEnv) (ic : Bool) (s : Str) : litsEq env ic [] s = (s == []) := by
   cases s <;> rfl
@@ -44,31 +59,44 @@ theorem litsEq_nil (env : CharEnv) (ic : Bool) (s : Str) : litsEq env ic [] s = 
 theorem attrEq_empty (c : Ctx) (e : Elem) (n : String) (ic : Bool) :
     attrEq c e n ic "" = attrEmpty c e n := by
   unfold attrEq attrEmpty
-  cases attrVal c e n with
-  | none => rfl
-  | some s =>
-    show litsEq c.env ic [] s = _
-    rw [litsEq_nil]; cases s <;> rfl
+  congr 1; funext s
+  show litsEq c.env ic [] s = _
+  rw [litsEq_nil]
 
 /-- In the ASCII environment `[n=v i]` is equality of the ASCII-lower-cased strings. -/
 theorem attrEq_ascii_ic (c : Ctx) (e : Elem) (n v : String) (henv : c.env = asciiEnv) :
-    attrEq c e n true v = (match attrVal c e n with
-      | none => false
-      | some s => lower s == lower v.toStr) := by
+    attrEq c e n true v = (attrVals c e n).any fun s => lower s == lower v.toStr := by
   unfold attrEq; rw [henv]
-  cases attrVal c e n with
-  | none => rfl
-  | some s => exact litsEq_ic _ _
+  congr 1; funext s
+  exact litsEq_ic _ _
 
 theorem attrEq_exact (c : Ctx) (e : Elem) (n v : String) :
-    attrEq c e n false v = (attrVal c e n == some v.toStr) := by
+    attrEq c e n false v = (attrVals c e n).any fun s => s == v.toStr := by
   unfold attrEq
-  cases attrVal c e n with
-  | none => rfl
-  | some s =>
-    show litsEq c.env false v.toStr s = (some s == some v.toStr)
-    rw [litsEq_exact]
-    by_cases h : s = v.toStr <;> simp [h]
+  congr 1; funext s
+  exact litsEq_exact _ _ _
+
+/-- When `[n]` designates at most one attribute (every tree made by a parser: attribute names are
+    the keys of a dictionary), the tests read that attribute — the former formulation. -/
+theorem attrEq_of_unique (c : Ctx) (e : Elem) (n : String) (ic : Bool) (v : String)
+    (hu : (attrVals c e n).length ≤ 1) :
+    attrEq c e n ic v = (match attrVal c e n with
+      | none => false
+      | some s => litsEq c.env ic v.toStr s) := by
+  unfold attrEq; rw [attrVal_eq_head?]
+  match h : attrVals c e n, hu with
+  | [], _ => rfl
+  | [s], _ => simp
+  | _ :: _ :: _, hu => simp at hu
+
+theorem attrEmpty_of_unique (c : Ctx) (e : Elem) (n : String)
+    (hu : (attrVals c e n).length ≤ 1) :
+    attrEmpty c e n = (attrVal c e n == some []) := by
+  unfold attrEmpty; rw [attrVal_eq_head?]
+  match h : attrVals c e n, hu with
+  | [], _ => rfl
+  | [s], _ => cases s <;> rfl
+  | _ :: _ :: _, hu => simp at hu
 
 /-! ### The HTML-only context leaves the atoms alone -/
 
@@ -99,15 +127,21 @@ theorem htmlOnly_ancestorsCut (b : Bool) (ps : List Loc) :
 theorem htmlOnly_matchAttributeName (a : Str) :
     matchAttributeName c.htmlOnly e a [] = matchAttributeName c e a [] := rfl
 
+theorem htmlOnly_matchAttributeValues (a : Str) :
+    matchAttributeValues c.htmlOnly e a [] = matchAttributeValues c e a [] := rfl
+
 @[simp] theorem htmlOnly_attrVal (n : String) : attrVal c.htmlOnly e n = attrVal c e n := by
   unfold attrVal; rw [htmlOnly_matchAttributeName]
+
+@[simp] theorem htmlOnly_attrVals (n : String) : attrVals c.htmlOnly e n = attrVals c e n := by
+  unfold attrVals; rw [htmlOnly_matchAttributeValues]
 
 @[simp] theorem htmlOnly_hasAttr (n : String) : hasAttr c.htmlOnly e n = hasAttr c e n := by
   unfold hasAttr; rw [htmlOnly_attrVal]
 
 @[simp] theorem htmlOnly_attrEq (n : String) (ic : Bool) (v : String) :
     attrEq c.htmlOnly e n ic v = attrEq c e n ic v := by
-  unfold attrEq; rw [htmlOnly_attrVal]; rfl
+  unfold attrEq; rw [htmlOnly_attrVals]; rfl
 
 theorem htmlOnly_tagDescendants (b : Bool) : c.htmlOnly.tagDescendants l b = c.tagDescendants l b := rfl
 
@@ -294,33 +328,34 @@ theorem isMatch_tmpl (env : CharEnv) (ic : Bool) (v s : Str) :
 
 /-- `[n]` -/
 theorem matchAttributes_A (n : String) : matchAttributes c.htmlOnly e [A n] = hasAttr c e n := by
-  rw [xml_type_pattern_choice]
-  show (match matchAttributeName c.htmlOnly e n.toStr [] with | none => false | some _ => _) = _
-  rw [htmlOnly_matchAttributeName]
-  unfold hasAttr attrVal
-  cases matchAttributeName c e n.toStr [] <;> simp
+  rw [xml_type_pattern_choice, hasAttr_eq_any]
+  show (matchAttributeValues c.htmlOnly e n.toStr []).any _ = _
+  rw [htmlOnly_matchAttributeValues]
+  unfold attrVals
+  rw [List.any_map]
+  congr 1; funext w
+  simp
 
 /-- `[type=v]` -/
 theorem matchAttributes_Aty (v : String) : matchAttributes c.htmlOnly e [Aty v] = typeIs c e v := by
   rw [xml_type_pattern_choice]
-  show (match matchAttributeName c.htmlOnly e "type".toStr [] with | none => false | some _ => _) = _
-  rw [htmlOnly_matchAttributeName]
-  unfold typeIs attrEq attrVal
-  cases matchAttributeName c e "type".toStr [] with
-  | none => rfl
-  | some w =>
-    cases hx : c.isXml <;> simp [hx, isMatch_tmpl]
+  show (matchAttributeValues c.htmlOnly e "type".toStr []).any _ = _
+  rw [htmlOnly_matchAttributeValues]
+  unfold typeIs attrEq attrVals
+  rw [List.any_map]
+  congr 1; funext w
+  cases hx : c.isXml <;> simp [hx, isMatch_tmpl]
 
 /-- `[n=v]`, `[n=v i]` (`n` other than `type`) -/
 theorem matchAttributes_Aval (n : String) (ic : Bool) (v : String) :
     matchAttributes c.htmlOnly e [Aval n ic v] = attrEq c e n ic v := by
   rw [xml_type_pattern_choice]
-  show (match matchAttributeName c.htmlOnly e n.toStr [] with | none => false | some _ => _) = _
-  rw [htmlOnly_matchAttributeName]
-  unfold attrEq attrVal
-  cases matchAttributeName c e n.toStr [] with
-  | none => rfl
-  | some w => simp [isMatch_tmpl]
+  show (matchAttributeValues c.htmlOnly e n.toStr []).any _ = _
+  rw [htmlOnly_matchAttributeValues]
+  unfold attrEq attrVals
+  rw [List.any_map]
+  congr 1; funext w
+  simp [isMatch_tmpl]
 
 /-! ### `:is(:not([type]), [type=""], [type=v₁], …)` -/
 
